@@ -22,6 +22,7 @@ def shards(tier, seed):
 
 
 def run(ctx, shard):
+    from pyoda_time import IsoDayOfWeek
     from pyoda_time import (DateAdjusters, DateTimeZone, DateTimeZoneProviders, Duration, LocalTime, Offset, OffsetDate, OffsetDateTime, OffsetTime, TimeAdjusters,
                             ZonedDateTime)
     from vf import gen
@@ -44,6 +45,37 @@ def run(ctx, shard):
 
     def local_of(x):
         return gen.day_of(x.date) * DAY + x.nanosecond_of_day
+
+    import inspect
+    from pyoda_time import LocalDateTime, LocalTime
+    _acc_cache = {}
+
+    def shared_accessors(T, base):
+        k_ = (T, base)
+        if k_ not in _acc_cache:
+            _acc_cache[k_] = [nm for nm in dir(base) if not nm.startswith("_") and isinstance(inspect.getattr_static(base, nm, None), property)
+                              and isinstance(inspect.getattr_static(T, nm, None), property) and nm not in ("date", "time_of_day", "local_date_time")]
+        return _acc_cache[k_]
+
+    def in_step(r, what, case):
+        """A derived value must be self-consistent: local = instant + offset (in its own calendar), and every component accessor it shares with
+        its local date-time / time of day reports the same as that local value does."""
+        ctx.ev(); ctx.count("derived_values")
+        try:
+            if hasattr(r, "to_instant") and hasattr(r, "local_date_time"):
+                if local_of(r.local_date_time) != ns_of(r.to_instant()) + r.offset.seconds * 10**9:
+                    V(f"derived-out-of-step:{what}", f"{what}: local {local_of(r.local_date_time)} != instant {ns_of(r.to_instant())} + offset {r.offset.seconds} s", case)
+                if hasattr(r, "to_offset_date_time") or isinstance(r, OffsetDateTime):
+                    o2 = OffsetDateTime(r.local_date_time, r.offset)
+                    if ns_of(o2.to_instant()) != ns_of(r.to_instant()):
+                        V(f"derived-out-of-step:{what}", f"{what}: to_instant() = {ns_of(r.to_instant())} but a value rebuilt from its own local date-time and offset has instant {ns_of(o2.to_instant())}", case)
+            base = r.local_date_time if hasattr(r, "local_date_time") else (r.time_of_day if hasattr(r, "time_of_day") else r.date)
+            for nm in shared_accessors(type(r), type(base)):
+                a_, b_ = getattr(r, nm), getattr(base, nm)
+                if a_ != b_ and not (a_ is b_):
+                    V(f"accessor-out-of-step:{type(r).__name__}.{nm}", f"{what}: {type(r).__name__}.{nm} = {a_!r} but its local value reports {b_!r}", case, repr(a_), repr(b_))
+        except Exception as ex:  # noqa: BLE001
+            ctx.exc(ex); V(f"derived-raised:{what}:{exc_key(ex)}", f"{what}: reading the derived value raised {ex!r}", case, repr(ex))
 
     for it in range(shard["n"]):
         os_ = rng.choice(offs); o = Offset.from_seconds(os_)
@@ -83,6 +115,7 @@ def run(ctx, shard):
         # parts
         ctx.count("offset_date_time_parts"); ctx.ev()
         od = odt.to_offset_date(); ot = odt.to_offset_time()
+        in_step(odt, "Instant.with_offset", case); in_step(od, "to_offset_date", case); in_step(ot, "to_offset_time", case)
         if od.date != odt.date or od.offset != o or od.calendar is not cal or ot.offset != o or ot.nanosecond_of_day != et or ot.time_of_day != odt.time_of_day:
             V("to_offset_date-time", "to_offset_date/to_offset_time lost a component", case)
         if od.at(odt.time_of_day) != odt or ot.on(odt.date) != odt:
@@ -103,6 +136,7 @@ def run(ctx, shard):
                 w = odt.with_offset(o2)
             except Exception as e:  # noqa: BLE001
                 ctx.exc(e); V(f"odt.with_offset-raised:{exc_key(e)}", f"with_offset({o2s}) raised {e!r}", c2, repr(e)); continue
+            in_step(w, "with_offset", c2)
             if ns_of(w.to_instant()) != n:
                 V("with_offset-instant", f"with_offset({o2s}) changed the instant: {ns_of(w.to_instant())} != {n}", c2, ns_of(w.to_instant()), n)
             if (gen.day_of(w.date), w.nanosecond_of_day) != (d2, t2):
@@ -121,6 +155,7 @@ def run(ctx, shard):
             if not clo <= ed <= chi: continue
             ctx.ev(); ctx.count("with_calendar"); ctx.key(("with_calendar", cid, c2cal.id))
             wc = odt.with_calendar(c2cal)
+            in_step(wc, "with_calendar", dict(case, cal2=c2cal.id))
             if ns_of(wc.to_instant()) != n or wc.calendar is not c2cal or wc.offset != o or wc.nanosecond_of_day != et or gen.day_of(wc.date) != ed:
                 V("with_calendar", f"with_calendar({c2cal.id}) changed instant/offset/time: instant {ns_of(wc.to_instant())} off {wc.offset.seconds}", dict(case, cal2=c2cal.id))
             wdc = od.with_calendar(c2cal)
@@ -135,6 +170,14 @@ def run(ctx, shard):
             a2 = odt.with_date_adjuster(DateAdjusters.start_of_month)
             if a2.nanosecond_of_day != et or a2.offset != o or gen.ymd(a2.date) != (exp_ymd[0], exp_ymd[1], 1) or a2.calendar is not cal:
                 V("with_date_adjuster", f"with_date_adjuster(start_of_month) gave {a2!r}", case)
+            in_step(a1, "with_time_adjuster", case); in_step(a2, "with_date_adjuster(start_of_month) after to_instant()", case)
+            for adj_nm, adj in (("end_of_month", DateAdjusters.end_of_month), ("next(MONDAY)", DateAdjusters.next(IsoDayOfWeek.MONDAY)), ("add 40 days", lambda d_: d_.plus_days(40 if gen.day_of(d_) + 41 < hi else -40))):
+                try:
+                    ax = odt.with_date_adjuster(adj)
+                except Exception as ex:  # noqa: BLE001  (range edge)
+                    ctx.exc(ex); continue
+                in_step(ax, f"with_date_adjuster({adj_nm})", case)
+                if ax.nanosecond_of_day != et or ax.offset != o: V("with_date_adjuster", f"with_date_adjuster({adj_nm}) changed time or offset", case)
             a3 = od.with_date_adjuster(DateAdjusters.end_of_month)
             if a3.offset != o or a3.date.day != cal.get_days_in_month(exp_ymd[0], exp_ymd[1]):
                 V("OffsetDate.with_date_adjuster", f"gave {a3!r}", case)
@@ -261,6 +304,38 @@ def run(ctx, shard):
             fz = odt.in_fixed_zone()
             if ns_of(fz.to_instant()) != n or fz.offset != o or fz.calendar is not cal:
                 V("odt.in_fixed_zone", "in_fixed_zone changed instant/offset/calendar", c4)
+            in_step(zdt, "Instant.in_zone", c4)
+            # the (local date-time, zone, offset) constructor: accepted exactly when the offset is the zone's offset at local - offset
+            try:
+                zi0 = z.get_zone_interval(i)
+                cands = [(n, zdt.offset.seconds)]
+                for edge in ([ns_of(zi0.end)] if zi0.has_end else []) + ([ns_of(zi0.start)] if zi0.has_start else []):
+                    wb_ = z.get_utc_offset(ins(edge - 1)).seconds; wa_ = z.get_utc_offset(ins(edge)).seconds
+                    for frac in (0, 1, abs(wa_ - wb_) * 10**9 // 2, abs(wa_ - wb_) * 10**9 - 1):
+                        for base_off in (wb_, wa_):
+                            Lx = edge + min(wb_, wa_) * 10**9 + frac          # a local value inside the skipped / repeated stretch
+                            cands.append((Lx - base_off * 10**9, base_off))
+                for inst_x, off_x in cands:
+                    Lx = inst_x + off_x * 10**9
+                    if not (IMIN + 2 * DAY <= inst_x <= IMAX - 2 * DAY and lo + 1 < Lx // DAY < hi - 1): continue
+                    ldx = gen.date_of(Lx // DAY, cal).at(LocalTime.from_nanoseconds_since_midnight(Lx % DAY))
+                    true_off = z.get_utc_offset(ins(inst_x)).seconds
+                    ctx.ev(); ctx.count("zoned"); ctx.key(("zoned-ctor", cid, true_off == off_x))
+                    try:
+                        zx = ZonedDateTime(local_date_time=ldx, zone=z, offset=Offset.from_seconds(off_x))
+                    except ValueError as ex:
+                        ctx.exc(ex)
+                        if true_off == off_x:
+                            V("zoned-ctor-rejected", f"ZonedDateTime(local {Lx}, {z.id}, offset {off_x} s) raised {ex!r} although {off_x} s is the zone's offset at local - offset", dict(c4, L=Lx, off=off_x))
+                        continue
+                    if true_off != off_x:
+                        V("zoned-ctor-accepted-wrong-offset", f"ZonedDateTime(local {Lx}, {z.id}, offset {off_x} s) was accepted; at the instant local - offset ({inst_x}) the zone's offset is {true_off} s", dict(c4, L=Lx, off=off_x), off_x, true_off)
+                    elif ns_of(zx.to_instant()) != inst_x or zx.offset.seconds != off_x or zx.calendar is not cal:
+                        V("zoned-ctor-value", f"ZonedDateTime(local {Lx}, {z.id}, offset {off_x} s) has instant {ns_of(zx.to_instant())}, expected {inst_x}", dict(c4, L=Lx, off=off_x))
+                    else:
+                        in_step(zx, "ZonedDateTime(local, zone, offset)", c4)
+            except Exception as ex:  # noqa: BLE001
+                ctx.exc(ex); V(f"zoned-ctor-raised:{exc_key(ex)}", f"ZonedDateTime(local, zone, offset) route raised {ex!r}", c4, repr(ex))
             dns = [rng.choice([0, 1, -1, rng.randint(-10**16, 10**16), rng.randint(-10**12, 10**12)])]
             try:   # sums that land exactly on, just before and just after the neighbouring transitions of the zone
                 zi_ = z.get_zone_interval(i)
